@@ -1,12 +1,26 @@
 #!/bin/bash
-# Builds the verification machinery offline from files on disk. ./build.sh [harness|all]
+# Builds the verification machinery offline from files on disk, and grex itself from /repo's
+# current working tree with the hooks enabled.   ./build.sh [harness|cli|python|all]
 set -eu
 cd "$(dirname "$0")"
 export CARGO_NET_OFFLINE=true
 mkdir -p /verif/.build
 what="${1:-all}"
-(
-  flock 9
-  cd /verif/harness
-  RUSTFLAGS="--cfg grex_verif" CARGO_TARGET_DIR=/verif/.build/harness cargo build --release --offline --bin vharness
-) 9>/verif/.build/harness.lock
+export RUSTFLAGS="--cfg grex_verif"
+if [ "$what" = harness ] || [ "$what" = all ]; then
+  (
+    flock 9
+    cd /verif/harness
+    CARGO_TARGET_DIR=/verif/.build/harness cargo build --release --offline --bin vharness
+  ) 9>/verif/.build/harness.lock
+fi
+if [ "$what" = cli ] || [ "$what" = all ]; then
+  (
+    flock 9
+    cd /repo
+    cargo build --release --offline --bin grex --target-dir /verif/.build/cli
+  ) 9>/verif/.build/cli.lock
+fi
+if [ "$what" = python ] || [ "$what" = all ]; then
+  ./build_python.sh
+fi
